@@ -62,6 +62,37 @@ static std::string hXsd(const Req& r) {
     long n = geti(r, "n", 0);
     bool full = get(r, "mode", "err") == "ced";
     std::string feat = get(r, "feat") + ";usecached=1";
+    long reuse = geti(r, "reuse", 0);    // >0: one parser object serves up to `reuse` consecutive documents (err mode only)
+    if (reuse > 0 && !full) {
+        std::string api = get(r, "api", "sax2");
+        Feat f2(feat);
+        MemResolver res(st);
+        long i = 0;
+        while (i < n) {
+            Dump d;
+            CapSAX2* ps = 0; CapDOMParser* pd = 0; Sax2Dump h(d); Sax1Dump eh(d);
+            try {
+                if (api == "dom") { pd = new CapDOMParser(0, mm, pool); pd->xd = &d; configDOM(*pd, f2, 0); pd->setErrorHandler(&eh); pd->setXMLEntityResolver(&res); }
+                else { ps = new CapSAX2(mm, pool); ps->xd = &d; configSAX2(*ps, f2, 0); ps->setErrorHandler(&h); ps->setXMLEntityResolver(&res); }
+            } XV_CATCH_ALL(d)
+            for (long k = 0; k < reuse && i < n; k++, i++) {
+                char key[32]; snprintf(key, sizeof key, "doc%ld", i);
+                Req::const_iterator it = r.find(key);
+                char hdr[48]; snprintf(hdr, sizeof hdr, "#DOC\t%ld\n", i);
+                out += hdr;
+                if (it == r.end()) { out += "EXC\tNODOC\n"; continue; }
+                d.out.clear();
+                try {
+                    MemBufInputSource src((const XMLByte*)it->second.data(), it->second.size(), X("mem:/doc.xml").c(), false);
+                    if (pd) { pd->parse(src); pd->resetDocumentPool(); } else if (ps) ps->parse(src);
+                } XV_CATCH_ALL(d)
+                out += onlyErr(d.finish());
+            }
+            delete ps; delete pd;
+        }
+        pool->unlockPool(); delete pool;
+        return out;
+    }
     for (long i = 0; i < n; i++) {
         char key[32]; snprintf(key, sizeof key, "doc%ld", i);
         Req::const_iterator it = r.find(key);
